@@ -1,0 +1,11 @@
+//go:build verif
+
+package gabi
+
+import "github.com/privacybydesign/gabi/big"
+
+// VerifCreateChallenge exposes the challenge computation over (context, contributions..., nonce) to the external
+// verification harness.
+func VerifCreateChallenge(context, nonce *big.Int, contributions []*big.Int, issig bool) *big.Int {
+	return createChallenge(context, nonce, contributions, issig)
+}
